@@ -283,8 +283,9 @@ def validate_scalar(value: Any, dtype: DataType) -> Any:
 
     vtype = type(value)
 
-    # Exact match
-    if vtype is dtype.kind:
+    # Exact match (an instance of a subclass counts as the kind it is inferred as:
+    # a named tuple in a tuple column, a str subclass in a str column)
+    if vtype is dtype.kind or infer_kind(value) is dtype.kind:
         return value
 
     # Numeric coercions
